@@ -1384,7 +1384,7 @@ func partB(r *vf.Run, scratch string) {
 	})
 	r.Extra("hostile_inputs_total", total)
 	r.Extra("hostile_distinct_counted_in_children", childDistinct)
-	r.Extra("exhaustive", map[string]interface{}{"hostile_inputs_of_length_1_and_2": true, "bound": "all 256 + 65536 byte strings of length 1 and 2 through DecodeValue, DeserializeCallParam (with and without version byte) and DeserializeNotify (with and without evt\\0)"})
+	r.Extra("enumerated_completely", map[string]interface{}{"hostile_inputs_of_length_1_and_2": true, "bound": "all 256 + 65536 byte strings of length 1 and 2 through DecodeValue, DeserializeCallParam (with and without version byte) and DeserializeNotify (with and without evt\\0)"})
 	r.Extra("giant_cases", len(gs))
 }
 
